@@ -58,7 +58,7 @@ Definition rawt := RawProto.raw N N.
 Definition raw_new : rawt := new_raw N N.
 Definition raw_step (hk : N) (t : rawt) (o : rop N N) := rstep N N N.eqb (hkind hk) t o.
 Definition raw_reserve (t : rawt) (add : N) := RawProto.reserve N N t add.
-Definition raw_iter (t : rawt) : list (N * N) := occ_vals N N t (N.to_nat (rcap N N t)).
+Definition raw_iter (t : rawt) : list (N * N) := RawProto.iter N N t.
 
 (* ---- eda: arena conversion over integer terms ---- *)
 Definition ebx := EdaProto.bx Z.
